@@ -118,9 +118,9 @@ META["C04"] = {
 
 META["C16"] = {
     "category": "proof",
-    "design_ref": "DESIGN.md section 5 / C16",
-    "technique": "Lean 4: the Update merge proved member-wise (induction over the supplied and the raw member lists: null in the raw object => absent, else supplied, else stored); the Tombstone's id / type / formerType / deleted / published / updated proved; Block proved undeliverable whenever its default effect succeeds, against any application (deterministic-answer semantics); a missing object proved to refuse the request before any call; Add/Remove share the ownership theorems of C04. Trace replay + per-member oracles on the real Get/Update values.",
-    "text": "Pure value theorems hold for all stored/supplied/raw objects. Ordering-independent clauses about lists (append/remove exactly the object ids; liked front insertion) are oracle-checked per run.",
+    "design_ref": "DESIGN.md section 5 / C16 and section 9.5",
+    "technique": "Lean 4: the Update merge proved member-wise (induction over the supplied and the raw member lists: null in the raw object => absent, else supplied, else stored); the Tombstone's id / type / formerType / deleted / published / updated proved; Block proved undeliverable whenever its default effect succeeds, against any application (deterministic-answer semantics); a missing object proved to refuse the request before any call; Add/Remove: ownership theorems of C04 plus a value-level monitor theorem (every collection handed to Update is the one Get returned with exactly the object ids appended / every element whose id is one of them removed) for every application. Trace replay + per-member oracles on the real Get/Update values.",
+    "text": "Value theorems hold for all stored/supplied/raw objects; the Add/Remove value theorems (addLoop_writes, removeLoop_writes) and the ownership theorems for every sequence of answers of the application. Like's front insertion into the liked collection is oracle-checked per run.",
     "note": "F9 (nulls were read from the activity's top level instead of the object) was a genuine defect, repaired (fix: commit). Trusted: Lean kernel, transcription (replay-validated).",
 }
 
